@@ -44,6 +44,7 @@ EXTENDS Naturals, Sequences, FiniteSets, TLC, Json
 
 CONSTANTS MaxWrites,    \* writes per history
           MaxCrashes,   \* kill -9 per history
+          MaxFaults,    \* transient failures of a replay callback per history
           ClassSel,     \* "entry" (all attribute classes) | "sched" (few classes, long schedules)
           Defects,      \* subset of AllDefects modelled as present
           Emit          \* TRUE: print one TRACE line per terminal state
@@ -54,7 +55,9 @@ Kinds    == {"raw", "row", "batch", "array", "lp"}
 Specials == {"database", "measurement", "m", "_database", "_measurement"}
 TsOf(k)  == {"neg", "lt1e10", "lt1e13", "normal"} \cup (IF k = "lp" THEN {"far"} ELSE {})
 
-Base(k) == [kind |-> k, db |-> "d1", ts |-> "normal", sp |-> "none", mk |-> "str"]
+\* sz: rows per request -- "small" (1-2: msgpack fixarray), "mid" (20: array16), "big" (65 600: array32
+\* in the row-format WAL entry, replayed in several RecoveryBatchSize batches)
+Base(k) == [kind |-> k, db |-> "d1", ts |-> "normal", sp |-> "none", mk |-> "str", sz |-> "small"]
 
 EntryClasses ==
     UNION { {Base(k)}
@@ -63,6 +66,7 @@ EntryClasses ==
             \cup {[Base(k) EXCEPT !.sp = s] : s \in Specials}
           : k \in Kinds }
     \cup {[Base("raw") EXCEPT !.mk = "int"], [Base("raw") EXCEPT !.mk = "int", !.db = "d2"]}
+    \cup {[Base("lp") EXCEPT !.sz = "mid"], [Base("lp") EXCEPT !.sz = "big"], [Base("batch") EXCEPT !.sz = "mid"]}
 
 SchedClasses == {Base("raw"), Base("lp"), [Base("lp") EXCEPT !.db = "d2"]}
 
@@ -74,14 +78,15 @@ VARIABLES phase,    \* "live" | "down" | "rec" | "done"
           files,    \* Seq([ents: Seq(id), alive: BOOLEAN]); the last one is the active file
           buf,      \* set of rows in the ArrowBuffer
           pq,       \* set of rows in Parquet (a set: duplicates are not the property's concern)
-          cur,      \* [f, e]: recovery cursor (file index, next callable entry)
+          cur,      \* [f, e, ok]: recovery cursor (file index, next callable entry, allEntriesSucceeded)
           crashes,
+          faults,   \* transient replay-callback failures injected so far
           reached,  \* ids whose WAL entry reached a file
           flushed,  \* ids whose live rows reached Parquet before any crash took them
           sched     \* history: labels of the steps taken (what the driver replays)
 
-vars == <<phase, writes, chan, files, buf, pq, cur, crashes, reached, flushed, sched>>
-view == <<phase, writes, chan, files, buf, pq, cur, crashes, reached, flushed>>
+vars == <<phase, writes, chan, files, buf, pq, cur, crashes, faults, reached, flushed, sched>>
+view == <<phase, writes, chan, files, buf, pq, cur, crashes, faults, reached, flushed>>
 
 -----------------------------------------------------------------------------
 WalFmt(c) == IF c.kind = "raw" THEN "env" ELSE "rows"
@@ -117,8 +122,8 @@ FirstFrom(fs, lo, hi) == CHOOSE g \in lo..hi : /\ (g = hi \/ fs[g].alive)
 
 Init == /\ phase = "live" /\ writes = <<>> /\ chan = <<>>
         /\ files = <<[ents |-> <<>>, alive |-> TRUE]>>
-        /\ buf = {} /\ pq = {} /\ cur = [f |-> 1, e |-> 1]
-        /\ crashes = 0 /\ reached = {} /\ flushed = {} /\ sched = <<>>
+        /\ buf = {} /\ pq = {} /\ cur = [f |-> 1, e |-> 1, ok |-> TRUE]
+        /\ crashes = 0 /\ faults = 0 /\ reached = {} /\ flushed = {} /\ sched = <<>>
 
 -----------------------------------------------------------------------------
 Write(c) ==
@@ -128,7 +133,7 @@ Write(c) ==
          /\ chan' = Append(chan, i)
          /\ buf' = buf \cup {LiveRowOf(c, i)}
     /\ sched' = Append(sched, "w")
-    /\ UNCHANGED <<phase, files, pq, cur, crashes, reached, flushed>>
+    /\ UNCHANGED <<phase, files, pq, cur, crashes, faults, reached, flushed>>
 
 Persist ==
     /\ phase = "live" /\ chan # <<>>
@@ -136,14 +141,14 @@ Persist ==
     /\ reached' = reached \cup {Head(chan)}
     /\ chan' = Tail(chan)
     /\ sched' = Append(sched, "p")
-    /\ UNCHANGED <<phase, writes, buf, pq, cur, crashes, flushed>>
+    /\ UNCHANGED <<phase, writes, buf, pq, cur, crashes, faults, flushed>>
 
 Flush ==
     /\ phase = "live" /\ buf # {}
     /\ pq' = pq \cup buf /\ buf' = {}
     /\ flushed' = flushed \cup {r.id : r \in {x \in buf : x = LiveRow(x.id)}}
     /\ sched' = Append(sched, "f")
-    /\ UNCHANGED <<phase, writes, chan, files, cur, crashes, reached>>
+    /\ UNCHANGED <<phase, writes, chan, files, cur, crashes, faults, reached>>
 
 \* crash points the driver can reach exactly: anywhere in the live phase; in recovery right
 \* after a replayed entry ("xa") or right before the first entry of a file ("xb": start of
@@ -154,7 +159,7 @@ CrashLabel ==
 
 CanCrashHere ==
     \/ phase = "live"
-    \/ /\ phase = "rec" /\ cur.f < Active
+    \/ /\ phase = "rec" /\ cur.f < Active /\ cur.ok
        /\ \/ cur.e > 1
           \/ Len(CallEnts(cur.f)) >= 1
 
@@ -164,15 +169,15 @@ Crash ==
     /\ phase' = "down" /\ chan' = <<>> /\ buf' = {}
     /\ crashes' = crashes + 1
     /\ sched' = Append(sched, CrashLabel)
-    /\ UNCHANGED <<writes, files, pq, cur, reached, flushed>>
+    /\ UNCHANGED <<writes, files, pq, cur, faults, reached, flushed>>
 
 Restart ==
     /\ phase = "down"
     /\ files' = Append(files, [ents |-> <<>>, alive |-> TRUE])
     /\ phase' = "rec"
-    /\ cur' = [f |-> FirstFrom(Append(files, [ents |-> <<>>, alive |-> TRUE]), 1, Len(files) + 1), e |-> 1]
+    /\ cur' = [f |-> FirstFrom(Append(files, [ents |-> <<>>, alive |-> TRUE]), 1, Len(files) + 1), e |-> 1, ok |-> TRUE]
     /\ sched' = Append(sched, "s")
-    /\ UNCHANGED <<writes, chan, buf, pq, crashes, reached, flushed>>
+    /\ UNCHANGED <<writes, chan, buf, pq, crashes, faults, reached, flushed>>
 
 RecoverReplay ==
     /\ phase = "rec" /\ cur.f < Active
@@ -180,38 +185,60 @@ RecoverReplay ==
     /\ buf' = buf \cup {ReplayRow(CallEnts(cur.f)[cur.e])}
     /\ cur' = [cur EXCEPT !.e = @ + 1]
     /\ sched' = Append(sched, "r")
-    /\ UNCHANGED <<phase, writes, chan, files, pq, crashes, reached, flushed>>
+    /\ UNCHANGED <<phase, writes, chan, files, pq, crashes, faults, reached, flushed>>
+
+\* the callback of one entry fails transiently (storage/backpressure error): nothing is buffered and
+\* allEntriesSucceeded becomes FALSE; a columnar entry lets the loop continue, a row entry breaks out
+RecoverReplayFail ==
+    /\ phase = "rec" /\ cur.f < Active /\ faults < MaxFaults
+    /\ cur.e <= Len(CallEnts(cur.f))
+    /\ faults' = faults + 1
+    /\ cur' = [cur EXCEPT !.ok = FALSE,
+                          !.e = IF WalFmt(writes[CallEnts(cur.f)[cur.e]]) = "env" THEN @ + 1
+                                ELSE Len(CallEnts(cur.f)) + 1]
+    /\ sched' = Append(sched, "rf")
+    /\ UNCHANGED <<phase, writes, chan, files, buf, pq, crashes, reached, flushed>>
+
+\* !allEntriesSucceeded: "WAL file partially recovered - keeping for retry"
+RecoverKeep ==
+    /\ phase = "rec" /\ cur.f < Active /\ ~cur.ok
+    /\ cur.e > Len(CallEnts(cur.f))
+    /\ cur' = [f |-> FirstFrom(files, cur.f + 1, Active), e |-> 1, ok |-> TRUE]
+    /\ sched' = Append(sched, "k")
+    /\ UNCHANGED <<phase, writes, chan, files, buf, pq, crashes, faults, reached, flushed>>
 
 \* allEntriesSucceeded: the file is removed (also when it had no readable entry at all)
 RecoverDelete ==
-    /\ phase = "rec" /\ cur.f < Active
+    /\ phase = "rec" /\ cur.f < Active /\ cur.ok
     /\ cur.e > Len(CallEnts(cur.f))
     /\ IF "deleteBeforeFlush" \in Defects
          THEN UNCHANGED <<buf, pq>>
          ELSE pq' = pq \cup buf /\ buf' = {}        \* repaired design: flush, then delete
     /\ files' = [files EXCEPT ![cur.f].alive = FALSE]
-    /\ cur' = [f |-> FirstFrom([files EXCEPT ![cur.f].alive = FALSE], cur.f + 1, Active), e |-> 1]
+    /\ cur' = [f |-> FirstFrom([files EXCEPT ![cur.f].alive = FALSE], cur.f + 1, Active), e |-> 1, ok |-> TRUE]
     /\ sched' = Append(sched, "d")
-    /\ UNCHANGED <<phase, writes, chan, crashes, reached, flushed>>
+    /\ UNCHANGED <<phase, writes, chan, crashes, faults, reached, flushed>>
 
 RecoverDone ==
     /\ phase = "rec" /\ cur.f = Active
     /\ phase' = "live"
     /\ sched' = Append(sched, "R")
-    /\ UNCHANGED <<writes, chan, files, buf, pq, cur, crashes, reached, flushed>>
+    /\ UNCHANGED <<writes, chan, files, buf, pq, cur, crashes, faults, reached, flushed>>
 
+\* a scenario ends only when no kept file still waits for its retry at the next startup
 Finish ==
     /\ phase = "live" /\ Len(writes) >= 1
+    /\ \A f \in 1..(Active - 1) : ~files[f].alive \/ files[f].ents = <<>>
     /\ pq' = pq \cup buf /\ buf' = {}
     /\ phase' = "done"
     /\ sched' = Append(sched, "F")
-    /\ UNCHANGED <<writes, chan, files, cur, crashes, reached, flushed>>
+    /\ UNCHANGED <<writes, chan, files, cur, crashes, faults, reached, flushed>>
 
 Done == phase = "done" /\ UNCHANGED vars
 
 Next == \/ \E c \in ClassSet : Write(c)
         \/ Persist \/ Flush \/ Crash \/ Restart
-        \/ RecoverReplay \/ RecoverDelete \/ RecoverDone \/ Finish \/ Done
+        \/ RecoverReplay \/ RecoverReplayFail \/ RecoverKeep \/ RecoverDelete \/ RecoverDone \/ Finish \/ Done
 
 Spec == Init /\ [][Next]_vars
 
@@ -228,7 +255,7 @@ RecoveredEqualsCrashFree ==
 \* sanity: nothing is fabricated, ids come from the history
 TypeOK == /\ \A r \in pq \cup buf : r.id \in 1..Len(writes)
           /\ reached \subseteq 1..Len(writes)
-          /\ crashes <= MaxCrashes
+          /\ crashes <= MaxCrashes /\ faults <= MaxFaults
 
 EmitInv ==
     (Emit /\ phase = "done") =>
